@@ -230,6 +230,27 @@ var c17Templates = []sim.Template{
 		e3.Cls2 = "fresh"
 		return []*sim.Action{act("recover_start", 0, v, ""), e1, act("get", 1, -9, "", "route", "/recover/end?token=abc&x=%zz"), e2, e3}
 	}},
+	{Name: "mailed-2fa-link-opened-elsewhere", F: func(s *sim.Sim) []*sim.Action {
+		if !s.Cfg.TwoFAEmail || !s.Cfg.Has("auth") {
+			return nil
+		}
+		v := findAcct(s, func(u *world.User) bool { return u.TOTPSecretKey == "" && u.SMSPhone == "" && u.Confirmed })
+		if v < 0 {
+			return nil
+		}
+		k := s.Cfg.TwoFA[s.R.Intn(len(s.Cfg.TwoFA))]
+		// the link from the mail is opened on another device, after logout, and finally where it belongs
+		return []*sim.Action{act("login", 0, v, "ok"), act("ev_start", 0, -9, "", "kind", k), act("ev_end", 1, -9, "othersession", "kind", k),
+			act("logout", 0, -9, ""), act("ev_end", 0, -9, "current", "kind", k), act("login", 0, v, "ok"), act("ev_end", 0, -9, "current", "kind", k)}
+	}},
+	{Name: "mailed-links-opened-with-broken-requests", F: func(s *sim.Sim) []*sim.Action {
+		if !s.Cfg.Has("recover") {
+			return nil
+		}
+		v := s.R.Intn(len(s.Accts))
+		return []*sim.Action{act("recover_start", 0, v, ""), act("open_link", 1, -9, "", "tok", "recover", "where", "recover_end_get"), act("open_link", 1, -9, "", "tok", "recover", "where", "recover_end_get", "broken", "1"),
+			act("open_link", 1, -9, "", "tok", "recover", "where", "protected"), act("open_link", 1, -9, "", "tok", "recover", "where", "/otp/add"), act("open_link", 1, -9, "", "tok", "recover", "where", "/2fa/recovery/regen")}
+	}},
 	{Name: "rotation-with-backend-fault", F: func(s *sim.Sim) []*sim.Action {
 		if !s.RememberActive() || !s.Cfg.Has("auth") {
 			return nil
